@@ -525,7 +525,7 @@ struct Pool {
 
 impl Pool {
   fn spawn() -> Pool {
-    let dp = DomainParticipant::new(DOMAIN).expect("participant");
+    let dp = util::participant(DOMAIN);
     let (jobs, jobs_rx) = mpsc::channel();
     let (res_tx, res) = mpsc::channel();
     let dp2 = dp.clone();
